@@ -39,6 +39,12 @@ T = {
  "C06_1": ("C06","fast/compile.go MarkUsedByClosure stops at the first function-body frame without marking it","closure created in a nested block, used after the creating call returned","missed at first (chain frames had no Caller); caught after making Caller symbolic: VH_C06_markUsedByClosure"),
  "C06_2": ("C06","fast/address.go Var.Address upn==2/int32 marks the intermediate frame","&x of an int32 two blocks below the function body, then frame reuse","caught: quick, VH_C06_Address_int32_I"),
  "C06_3": ("C06","fast/compile.go freeEnv keeps the slot array of the frame stored in the last pool slot","exactly 31 frames pooled when a frame with an escaped slot address is freed","caught: quick, VH_C06_free (pool size cap-1)"),
+ "C26_1": ("C26","base/read.go: after an escaped backslash the reader stays in string-escape mode","a string literal ending in an escaped backslash, e.g. \"C:\\\\\"","caught: quick, VH_C26_step1 (string escape prefix)"),
+ "C26_2": ("C26","base/read.go: '^' dropped from the operators that continue a statement","a line ending in binary ^ or &^","caught: quick, VH_C26_step1_p16"),
+ "C26_3": ("C26","base/read.go: '/*' enters comment-star mode","block comments starting with /*/ and the empty comment /**/","caught: quick, VH_C26_step1_p20 and others"),
+ "C04_1": ("C04","fast/binary.go BinaryExprUntyped: xint computed from y.Kind","an untyped rune on the left of a non-rune untyped constant; rune division","NOT caught: untyped binary operations are outside the C04 claim (level_note)"),
+ "C04_2": ("C04","base/untyped/lit.go extractNumber: inexact check compares with Uintptr instead of Uint","negative or > 64-bit constant converted to a 64-bit unsigned type","caught: quick, VH_C04_untypedInt_to_uint*"),
+ "C04_3": ("C04","base/untyped/lit.go Lit.BigInt uses SetInt64 for values in [2^63, 2^64)","constant in [2^63, 2^64) converted to *big.Int","NOT caught: math/big conversions are outside the C04 claim (level_note)"),
 }
 for k,(prop,what,needs,res) in T.items():
     d='/verif/seeded/'+k
